@@ -36,6 +36,11 @@ def gen_plan(rng, tier, idx, opts):
         if r < 0.2:
             ops.append({"op": "policy", "v": rng.random() < 0.6})
             continue
+        if r < 0.27:
+            # shadowing switched on (or off again): while it is on only the policy relations are defined (the loss is random;
+            # the library draws from numpy's GLOBAL generator, which the world re-seeds before every query)
+            ops.append({"op": "shadow", "on": rng.random() < 0.6, "sigma": rng.choice([8.0, 3.0, 12.0]), "seed": rng.randrange(1 << 30)})
+            continue
         if model == "freespace":
             if rng.random() < 0.5:
                 ops.append({"op": "set", "attr": "n", "v": round(rng.uniform(1.5, 5.0), 3) if rng.random() < 0.8 else 2.0})
@@ -134,6 +139,54 @@ def execute(plan):
         sg = {"model": model, "last_op": last["op"], "after_rejected_setter": last["rejected"]}
         sg.update(sig)
         add_violation(res, pid + "." + inv, step, detail, sg)
+
+    shadow = {"on": False, "seed": 0}
+
+    def shadow_relations(step):
+        """With shadowing the loss is random, but the policy still holds: never a negative loss in dB (linear gain <= 1)
+        unless the model raises, and it may raise only under the 'raise' policy; the linear value is 10^(-dB/10) for the
+        same draw (the global numpy generator is re-seeded before each of the two queries)."""
+        st = public_state(obj, model)
+        policy = st["policy"]
+        if model == "metis":
+            d = np.sort(10 ** rs.uniform(-1, 3, size=24))
+            kw = {"num_walls": int(rs.randint(0, 4))}
+        elif model == "hata":
+            d = np.sort(rs.uniform(1.0, 20.0, size=24))
+            kw = {}
+        else:
+            d = np.sort(10 ** rs.uniform(-4, 2, size=24))
+            kw = {}
+        for q in (d, float(d[int(rs.randint(d.size))]), float(d[0])):
+            sd = (shadow["seed"] + step * 7919 + (0 if isinstance(q, float) else 1)) % (1 << 31)
+            try:
+                np.random.seed(sd)
+                db = obj.calc_path_loss_dB(np.array(q, copy=True) if not isinstance(q, float) else q, **kw)
+            except RuntimeError:
+                if policy:
+                    viol("small_distance", step, "shadowing on, policy 'clamp': calc_path_loss_dB raised", rel="policy", shadow=True)
+                    return
+                bump(res["probes"], "shadowed_loss_raised_under_raise_policy")
+                continue
+            dbv = np.atleast_1d(np.asarray(db, dtype=float))
+            if np.any(dbv < 0):
+                viol("small_distance", step, "shadowing on (sigma %.3g), policy %s: a loss of %.4g dB was returned (neither clamped to 0 dB nor refused)" % (
+                    obj.sigma_shadow, "clamp" if policy else "raise", float(dbv.min())), rel="negative_loss", shadow=True)
+                return
+            try:
+                np.random.seed(sd)
+                lin = obj.calc_path_loss(np.array(q, copy=True) if not isinstance(q, float) else q, **kw)
+            except RuntimeError:
+                viol("linear", step, "shadowing on: calc_path_loss raised where calc_path_loss_dB (same draw) did not", rel="linear", shadow=True)
+                return
+            linv = np.atleast_1d(np.asarray(lin, dtype=float))
+            if linv.shape != dbv.shape or np.any(linv > 1.0) or np.any(linv <= 0) or np.max(np.abs(linv - 10 ** (-dbv / 10.0)) / (10 ** (-dbv / 10.0))) > 1e-9:
+                viol("linear", step, "shadowing on: the linear loss is not 10^(-dB/10) in (0,1] for the same draw", rel="linear", shadow=True)
+                return
+            bump(res["probes"], "shadowed_queries")
+            if np.any(dbv == 0.0):
+                bump(res["probes"], "shadowed_loss_clamped_to_0dB")
+        log.add("shadow_relations", step)
 
     def relations(step):
         st = public_state(obj, model)
@@ -311,12 +364,22 @@ def execute(plan):
                             break
                     res["state_keys"].append("%s|%s|rejected=%s|policy=%s|prev=%s" % (model, op["attr"], rejected, obj.handle_small_distances_bool, prev_attr[0]))
                     prev_attr[0] = op["attr"]
+                elif o == "shadow":
+                    obj.use_shadow_bool = bool(op["on"])
+                    if op["on"]:
+                        obj.sigma_shadow = float(op["sigma"])
+                    shadow["on"], shadow["seed"] = bool(op["on"]), op["seed"]
+                    last.update(op="shadow_on" if op["on"] else "shadow_off", rejected=False)
+                    bump(res["probes"], "shadowing_switched_" + ("on" if op["on"] else "off"))
                 elif o == "eval":
                     last.update(op="eval", rejected=False)
                 else:
                     raise HarnessError("unknown op")
                 log.add(o, op.get("attr"), op.get("v"))
-                relations(step)
+                if shadow["on"]:
+                    shadow_relations(step)
+                else:
+                    relations(step)
         # antenna gain: side assertion only (pure function; not what this check is for)
         ag = antennagain.AntGainBS3GPP25996(plan["sectors"])
         ang = np.sort(rs.uniform(-180, 180, size=12))
